@@ -342,6 +342,15 @@ def withoutDh (p : Proposal) : Proposal := { p with transforms := p.transforms.f
 /-! ### kernel -/
 
 /-- the kernel's keys of the two SAs of a CHILD_SA as this object installs them: outbound towards the peer, inbound towards us -/
+abbrev Key := Bytes × Nat × Bytes
+
+/-- the kernel's reaction to one request (a refused NEWSA is listed but has no effect; NEWSA of a key it holds and DELSA of one
+    it does not hold are refused) -/
+def applyNl (sad : List Key) : NlOp → List Key
+  | .newSa d q s => if sad.contains (d, q, s) then sad else sad ++ [(d, q, s)]
+  | .delSa d q s => sad.filter fun e => e ≠ (d, q, s)
+  | _ => sad
+
 def outKey (x : XSa) (c : Child) : Bytes × Nat × Bytes := (x.core.peerAddr, ipsecProto c.proposal.proto, c.outSpi)
 def inKey (x : XSa) (c : Child) : Bytes × Nat × Bytes := (x.core.myAddr, ipsecProto c.proposal.proto, c.inSpi)
 
